@@ -468,3 +468,33 @@ def c09(tier, replay=None):
                        "seeded random writer-accepted systems (constant states, init over earlier states, array states, labels aliasing states, named and "
                        "anonymous signals) and shipped btor2 designs: serialize_to_str then parse_str into the same context, compared with the ORIGINAL "
                        "position by position by TLC; second write/read cycle for the name clause; programs = systems", (600, 6000))
+
+
+# ------------------------------------------------------------------------------------------------
+def c17(tier, replay=None):
+    chk = Check("C17", tier, "model_checking")
+    T = chk.thorough()
+    # (M) the worklist traversal over all small dependency graphs: exact, duplicate-free, terminating
+    cfg = pv.write_cfg(chk.work / "Coi.cfg", spec="Spec", constants={"NN": 3}, invariants=("Exact", "NoDup", "OnlySym"), properties=("Terminates",))
+    r = pv.tlc_ok("Coi", cfg, workers=8, timeout=3000, xmx="6g")
+    chk.add_states(r.generated, r.distinct)
+    chk.part("Coi_model", states=r.distinct, nodes=3)
+    trace = chk.work / "trace.ndjson"
+    if replay:
+        rep = json.loads(Path(replay).read_text())
+        pv.write_ndjson(trace, rep["detail"]["events"])
+        info = {"systems": 1, "cones": 1}
+    else:
+        p = pv.pv(["c17", "--out", trace, "--systems", 4000 if T else 500])
+        info = json.loads(p.stdout.strip().splitlines()[-1])
+    st = stateful_check(chk, "Trace_C17", trace, '"ev":"Sys"', lambda rj, seg: {"why": rj["why"], "loc": rj.get("loc", "")}, shards=14, keep=1)
+    chk.cov["traces_validated_against_impl"] = info["cones"]
+    chk.cov["evaluations"] = info["cones"]
+    chk.cov["distinct_nontrivial"] = info["systems"]
+    chk.cov["rule"] = ("seeded systems whose functions are xor/add chains over chosen symbol subsets (every syntactic dependency is semantically real) "
+                       "plus random systems; every expression and inner node as root; the three cones are judged by TLC for kind, syntactic tightness and "
+                       "sufficiency (all current valuations / all free initial values and inputs / all steps via a pair fixpoint); distinct = systems")
+    sample_lines(chk, trace, 3, lambda r: {"ev": r["ev"], "root": r["root"], "full": r["full"], "init": r["init"], "comb": r["comb"]})
+    chk.part("harness", **info)
+    chk.assumptions += ["systems are small enough (<= 6 state bits, <= 3 input bits) for exhaustive enumeration of executions; states without a next function are not generated"]
+    return chk.finish()
